@@ -58,7 +58,7 @@ def rand_mant(r, bits, cls=None):
 
 def specs(rng, tier, wid, nw, env):
     q = tier == 'quick'; k = 0
-    pats = ['rand', 'gap0', 'gap1', 'gap-1', 'gap=prec-1', 'gap=prec', 'gap=prec+1', 'far', 'cancel', 'borrow', 'equal', 'lowzero', 'top1', 'small-int']
+    pats = ['toppart', 'rand', 'gap0', 'gap1', 'gap-1', 'gap=prec-1', 'gap=prec', 'gap=prec+1', 'far', 'cancel', 'borrow', 'equal', 'lowzero', 'top1', 'small-int']
     P = PRECS[:6] if q else PRECS
     for op in ('mpf_add', 'mpf_sub', 'mpf_mul', 'mpf_div'):
         for pd in P:
@@ -90,11 +90,16 @@ def make_pair(r, pa, pb, pat):
         L = r.randint(1, 5) * 64 + r.choice([0, 0, 1, 63]); hi = r.getrandbits(r.randint(1, 100)) | 1
         ma = ((hi << 1 | 1) << L); mb = ((hi << 1) << L) | ((1 << L) - 1); eb = ea
         if r.random() < 0.5: mb -= r.getrandbits(min(L, 40))
+    elif pat == 'toppart':
+        # the shorter operand is exactly the top limbs of the longer one (same exponent): the difference is the long low part
+        ma = rand_mant(r, max(pa, 192) + r.choice([0, 64, 130])); k = r.choice([64, 128, ma.bit_length() // 2, ma.bit_length() - 64]); k = min(k, ma.bit_length() - 1)
+        mb = ma >> k; eb = ea + k
     elif pat == 'equal': mb = ma; eb = ea
     elif pat == 'lowzero': ma = (r.getrandbits(60) | 1) << (64 * r.randint(1, 4)); mb = (r.getrandbits(60) | 1) << (64 * r.randint(1, 4)); eb = ea + r.randint(-70, 70)
     elif pat == 'top1': ma = 1 << (ma.bit_length() - ma.bit_length() % 64 or 64); mb = (1 << (64 * r.randint(1, 3))) + r.getrandbits(10); eb = ea + r.randint(-130, 130)
     else: ma = r.randint(1, 1000); mb = r.randint(1, 1000); ea = eb = 0
     sa = r.choice([1, 1, -1]); sb = r.choice([1, 1, -1])
+    if pat == 'toppart' and r.random() < 0.8: sb = sa
     return sa * ma, ea, sb * mb, eb
 
 def build(spec, env):
